@@ -327,7 +327,14 @@ func (fr *frame) visit(instr ssa.Instruction) continuation {
 
 	case *ssa.MakeChan:
 		e.storeSeq++
-		fr.set(instr, &Chan{ID: e.storeSeq})
+		size := 0
+		if sz, ok := fr.get(instr.Size).(sym.Sc); ok {
+			if !sz.K {
+				e.unsupported("make(chan) with a symbolic size at %s", e.where())
+			}
+			size = int(sz.Signed())
+		}
+		fr.set(instr, &Chan{ID: e.storeSeq, cap: size})
 
 	case *ssa.Alloc:
 		p := new(Value)
@@ -402,10 +409,10 @@ func (fr *frame) visit(instr ssa.Instruction) continuation {
 		panic("unreachable: phi")
 
 	case *ssa.Send:
-		e.chanSend(fr.get(instr.Chan), fr.get(instr.X))
+		e.chanSend(fr.get(instr.Chan), fr.get(instr.X), instr.Chan.Type())
 
 	case *ssa.Select:
-		e.unsupported("select")
+		fr.set(instr, e.selectStmt(fr, instr))
 
 	default:
 		e.unsupported("instruction %T", instr)
